@@ -19,6 +19,7 @@ EXPLANATION = (
     "[JSON-BACK] from_json rebuilds the message and every field object; [JSON-RAW-FIRST] every generated encoder producer whose displayed value is "
     "not JSON-native (DATE, TIME/DURATION) or is a lookup name prefers raw_value. to_json, its default hook and from_json are interpreted over abstract values (what is handed to orjson.dumps; the hook on bytes / bytearray / timedelta / another class; NMEA2000Message(**d) with fields rebuilt as NMEA2000Field(**f) in order). UNDECIDED: value equality after the round trip (floats, NaN, "
     "non-ASCII), enum/identity reconstruction."
+    ' [JSON-TYPES class::*] NMEA2000Message, NMEA2000Field and IsoName are dataclasses (serialised natively by orjson) or are converted by the default hook; PhysicalQuantities / FieldTypes are Enums.'
 )
 ASSUMPTIONS = ["CPython ast parser", "orjson natively serialises str/int/float/bool/None/list/dict/dataclass/datetime/date/time/enum and calls `default` for anything else",
                "sym.py guard extraction; teval.py evaluation of membership tests on stand-in lists"]
